@@ -267,7 +267,7 @@ theorem C08_partial_srcs_iff (c : Ctx) (t : Target) (x y : List Bytes) :
   · exact C08_partial_srcs c t x y
   · intro h
     unfold ruleSer
-    exact serView_congr_list F c .sources (agree_srcs c t x y) (by simpa [view, allInputs] using h) F.items
+    exact serView_congr_list F c .sources (by decide) (agree_srcs c t x y) (by simpa [view, allInputs] using h) F.items
 
 /-- Dependencies are hashed through `BuildLabel.String()`, which is not injective on in-memory labels:
     package `a:b`, name `c` and package `a`, name `b:c` both print `//a:b:c` (the BUILD parser rejects `:` in
